@@ -272,7 +272,13 @@ func (ps *specParser) typeName() string {
 func (ps *specParser) iff() SExpr {
 	x := ps.impl()
 	for ps.accept("<==>") {
-		y := ps.impl()
+		var y SExpr
+		t := ps.peek()
+		if t.kind == "ident" && (t.text == "forall" || t.text == "exists") {
+			y = ps.expr()
+		} else {
+			y = ps.impl()
+		}
 		x = &SBinary{"<==>", x, y}
 	}
 	return x
